@@ -141,3 +141,130 @@ func TestC08Race(t *testing.T) {
 		}
 	}
 }
+
+// one view object read by several goroutines at once (indexed getters, both iterator families,
+// serialization, root): nothing is written by a read, so the readers cannot conflict and each
+// sees what it sees alone (C17)
+func TestC17Race(t *testing.T) {
+	g := &gen{r: newRng(1701), noBool: true, maxElem: 40}
+	tys := []*Ty{
+		{Kind: "vec", Elem: &Ty{Kind: "u", N: 8}, N: 300}, {Kind: "bitvec", N: 1300},
+		{Kind: "list", Elem: &Ty{Kind: "u", N: 2}, N: 500}, {Kind: "bitlist", N: 900},
+		{Kind: "list", Elem: &Ty{Kind: "cont", Fields: []*Ty{{Kind: "u", N: 8}, {Kind: "list", Elem: &Ty{Kind: "u", N: 1}, N: 9}}}, N: 40},
+		{Kind: "cont", Fields: []*Ty{{Kind: "u", N: 8}, {Kind: "bitlist", N: 70}, {Kind: "vec", Elem: &Ty{Kind: "u", N: 4}, N: 9}, {Kind: "root"}}},
+	}
+	for k := 0; k < 6; k++ {
+		tys = append(tys, g.ty(2))
+	}
+	for _, ty := range tys {
+		if !isComposite(ty) || ty.Kind == "union" {
+			continue
+		}
+		saved := g.maxElem
+		if ty.Kind == "bitlist" || (ty.Kind == "list" && ty.Elem.Kind == "u") {
+			g.maxElem = int(ty.N)
+		}
+		v := g.val(ty)
+		g.maxElem = saved
+		vw, err := buildView(ty, v)
+		if err != nil {
+			continue
+		}
+		vw.HashTreeRoot(tree.Hash)
+		alone := iterObsShared(ty, vw)
+		var wg sync.WaitGroup
+		bad := make([]string, 6)
+		for w := 0; w < 6; w++ {
+			wg.Add(1)
+			go func(w int) {
+				defer wg.Done()
+				for rep := 0; rep < 4; rep++ {
+					if got := iterObsShared(ty, vw); got != alone && bad[w] == "" {
+						bad[w] = fmt.Sprintf("worker %d on %s: a concurrent reader saw %.120q, alone %.120q", w, ty.Sexp(), got, alone)
+					}
+					_, _ = serializeView(vw)
+					_ = vw.HashTreeRoot(tree.Hash)
+				}
+			}(w)
+		}
+		wg.Wait()
+		for _, b := range bad {
+			if b != "" {
+				t.Errorf("CONCURRENT-MISMATCH %s", b)
+			}
+		}
+	}
+}
+
+// iterObsShared: indexed reads, Iter() and ReadonlyIter() of a view, rendered through element
+// roots; uses no state of the harness (unlike iterObsN), so it may run concurrently
+func iterObsShared(t *Ty, vw view.View) string {
+	h := tree.GetHashFn()
+	var sb []byte
+	add := func(s string) { sb = append(sb, s...); sb = append(sb, ',') }
+	drainB := func(it bitIter, n int) {
+		for i := 0; i < n+2; i++ {
+			b, ok, err := it.Next()
+			add(fmt.Sprint(b, ok, err != nil))
+		}
+	}
+	drainE := func(it elemIter, n int) {
+		for i := 0; i < n+2; i++ {
+			el, ok, err := it.Next()
+			if el != nil && ok && err == nil {
+				r := el.HashTreeRoot(h)
+				add(hexBytes(r[:4]))
+			} else {
+				add(fmt.Sprint(ok, err != nil))
+			}
+		}
+	}
+	n := int(currentLen(vw, t))
+	switch x := vw.(type) {
+	case *view.BitVectorView:
+		for i := 0; i < n; i++ {
+			b, err := x.Get(uint64(i))
+			add(fmt.Sprint(b, err != nil))
+		}
+		drainB(x.ReadonlyIter(), n)
+		drainB(x.Iter(), n)
+	case *view.BitListView:
+		for i := 0; i < n; i++ {
+			b, err := x.Get(uint64(i))
+			add(fmt.Sprint(b, err != nil))
+		}
+		drainB(x.ReadonlyIter(), n)
+		drainB(x.Iter(), n)
+	default:
+		var getF func(i uint64) (view.View, error)
+		var ro, ix elemIter
+		switch y := vw.(type) {
+		case *view.BasicVectorView:
+			getF = func(i uint64) (view.View, error) { return y.Get(i) }
+			ro, ix = y.ReadonlyIter(), y.Iter()
+		case *view.BasicListView:
+			getF = func(i uint64) (view.View, error) { return y.Get(i) }
+			ro, ix = y.ReadonlyIter(), y.Iter()
+		case *view.ComplexVectorView:
+			getF, ro, ix = y.Get, y.ReadonlyIter(), y.Iter()
+		case *view.ComplexListView:
+			getF, ro, ix = y.Get, y.ReadonlyIter(), y.Iter()
+		case *view.ContainerView:
+			getF, ro, ix = y.Get, y.ReadonlyIter(), y.Iter()
+		default:
+			return "?"
+		}
+		for i := 0; i < n; i++ {
+			el, err := getF(uint64(i))
+			if err != nil || el == nil {
+				add("ERR")
+				continue
+			}
+			r := el.HashTreeRoot(h)
+			add(hexBytes(r[:4]))
+		}
+		drainE(ro, n)
+		drainE(ix, n)
+	}
+	return string(sb)
+}
